@@ -1,4 +1,5 @@
 import Tmv.Lemmas.BlockSync
+import Tmv.Lemmas.BlockSyncHandover
 /-! # C13 — Block sync applies only the canonical chain, whatever peers send
 Property theorems about the model `Tmv.BlockSync` of blockchain/v0 (pool.go, reactor.go
 `poolRoutine`), `VerifyCommitLight`/`VerifyCommit`, `validateBlock` and the hand-over
@@ -212,47 +213,6 @@ theorem reaches_tip_with_one_honest_partial (n : Node) (first second : Block)
 
 /-! ### hand-over -/
 
-/-- every non-absent entry of `c` carries the address of the validator at its index and a
-signature that verifies — what `CommitToVoteSet` → `AddVote` insists on -/
-def FullyChecked (c : Commit) : List Val → List CSig → Prop
-  | v :: vs, s :: ss =>
-    (s.flag ≠ .absent → s.addr = v.addr ∧ sigOK v.key (signBytes c s) s.sig = true) ∧
-      FullyChecked c vs ss
-  | _, [] => True
-  | [], _ :: _ => False
-
-theorem toVoteSet_ok (c : Commit) : ∀ (vals : List Val) (sigs : List CSig) (s ns : Int),
-    FullyChecked sigOK c vals sigs →
-    ∃ ns', toVoteSet sigOK c vals sigs s ns = .ok (s + signedPower sigOK c vals sigs, ns') := by
-  intro vals
-  induction vals with
-  | nil =>
-    intro sigs s ns h
-    cases sigs with
-    | nil => exact ⟨ns, by simp [toVoteSet, signedPower]⟩
-    | cons a l => simp [FullyChecked] at h
-  | cons v vs ih =>
-    intro sigs s ns h
-    cases sigs with
-    | nil => exact ⟨ns, by simp [toVoteSet, signedPower]⟩
-    | cons a l =>
-      obtain ⟨h1, h2⟩ := h
-      unfold toVoteSet
-      simp only [signedPower]
-      by_cases hf : a.flag = .absent
-      · obtain ⟨ns', e⟩ := ih l s ns h2
-        refine ⟨ns', ?_⟩
-        simp [hf, e]
-      · obtain ⟨ha, hs⟩ := h1 hf
-        simp only [hf, if_false, ha, ne_eq, not_true_eq_false, hs, Bool.not_true]
-        by_cases hc : a.flag = .commit
-        · obtain ⟨ns', e⟩ := ih l (s + v.power) ns h2
-          refine ⟨ns', ?_⟩
-          simp [hc, e]; omega
-        · obtain ⟨ns', e⟩ := ih l s (ns + v.power) h2
-          refine ⟨ns', ?_⟩
-          simp [hc, e]
-
 /-- the newest stored block is the state's last block and its seen commit has the quorum of the
 state's `LastValidators` -/
 theorem tip_quorum {st0 : St} (h0 : st0.lastHeight = 0) {l : List (Block × Commit)} {st : St}
@@ -294,6 +254,45 @@ theorem handover_clean_partial (st0 : St) (h0 : st0.lastHeight = 0)
       simp only [Int.zero_add, ge_iff_le]
       rw [if_pos (Or.inl this)]
     · rfl
+
+/-- **handover_clean_iff.** Exact delimitation of the known finding. For every reachable node that
+is caught up with at least one block synced, the hand-over (`SwitchToConsensus` →
+`reconstructLastCommit`) returns without panic IF AND ONLY IF the seen commit stored for the last
+synced block — the `LastCommit` of the block a peer served one height above — passes the FULL
+`VerifyCommit` against the state's `LastValidators` and every non-absent entry carries the
+address of the validator at its index. Block sync has established the light quorum only; the
+rest is what a lying peer controls. The same holds for a restart (`consensus.NewState`). -/
+theorem handover_clean_iff (st0 : St) (h0 : st0.lastHeight = 0) (ops : List Op)
+    (hpos : ((Node.new st0).run sigOK ops).st.lastHeight > 0) :
+    ∃ b c rest, ((Node.new st0).run sigOK ops).store = (b, c) :: rest ∧
+      b.height = ((Node.new st0).run sigOK ops).st.lastHeight ∧
+      (let n := (Node.new st0).run sigOK ops
+       let clean := verifyCommit sigOK n.st.lastVals b.id b.height c = .ok () ∧
+          AddrMatch n.st.lastVals c.sigs
+       (n.pool.isCaughtUp = true → (n.handover sigOK = .ok ↔ clean)) ∧
+       ((n.restart sigOK).2 = .ok ↔ clean)) := by
+  have hs := saved_is_canonical sigOK st0 ops
+  generalize (Node.new st0).run sigOK ops = n at *
+  obtain ⟨b, c, rest, hl, hh, hq⟩ := tip_quorum sigOK h0 hs hpos
+  refine ⟨b, c, rest, hl, hh, ?_⟩
+  have key : reconstruct sigOK n.st n.store = .ok ↔
+      (verifyCommit sigOK n.st.lastVals b.id b.height c = .ok () ∧ AddrMatch n.st.lastVals c.sigs) := by
+    rw [hl, reconstruct_ok_iff sigOK n.st b c rest hh hq, fullyChecked_iff sigOK c _ _ hq.1,
+      verifyCommit_iff_of_quorum sigOK _ _ _ _ hq]
+  refine ⟨fun hcu => ?_, ?_⟩
+  · unfold Node.handover
+    simp only [hcu, Bool.not_true, Bool.false_eq_true, if_false, hpos, if_true]
+    exact key
+  · unfold Node.restart
+    simp only [hpos, if_true]
+    constructor
+    · intro h
+      by_cases hr : reconstruct sigOK n.st n.store = .ok
+      · exact key.mp hr
+      · simp only [hr, if_false] at h; exact absurd h hr
+    · intro hc
+      have hr := key.mpr hc
+      simp [hr]
 
 /-- concrete run: validators of power 7 and 3; the peer serves block 1 and a block 2 whose
 LastCommit has validator 0's valid signature (7 > 2/3 of 10) followed by a garbage signature -/
